@@ -349,3 +349,31 @@ _c["level_text"] += (" Since session 3 the decoding of the payload bytes is mode
 _c["level_note"] += (" Byte-level model: time.Time.UnmarshalJSON on the raw text and float64 printing of numbers decoded into `any` (meta, error source) stay "
     "parameters (Delegated); the driver instantiates them on the strict RFC 3339 layout and on canonical integers up to 2^53 and both sides skip the rest "
     "(3-4 % of the generated rows); the capacity sequence of the errors slice is the observed one of this Go runtime.")
+
+# Work package N: net/url on ARBITRARY raw strings inside the model (Spec/UrlFull.lean: url.Parse +
+# Query() of go1.23.5; Model/UrlRaw.lean: NewURLFromRaw from the raw string; Props/C07B.lean; suite
+# `urlraw`: the real url.Parse/Query and the real NewURLFromRaw against the model on the SAME raw string).
+_c = PROPS["C07"]
+_c["modules"] = list(_c.get("modules", ["C07"])) + ["C07B"]
+_c["theorems"] = list(_c["theorems"]) + ["C07B_total", "C07B_total_real", "C07B_parse_error", "C07B_values_nodup", "C07B_parsed",
+    "C07B_consistent", "C07B_sort_names", "C07B_order_independent", "C07B_extends_parseRaw", "C07B_raw_eq_reparse", "C07B_rawFd_eq",
+    "C07B_parseRaw_differs", "C07B_fragments_nonempty", "C07B_string_plainRef", "C07B_parse_string", "C07B_reparse", "C07B_query_spec",
+    "C07B_order", "C07B_order_url", "C07B_rawFd_perm", "C07B_raw_order"]
+_c["suites"] = list(_c["suites"]) + [("urlraw", 4000, 60000)]
+_c["level_text"] += (" From the RAW STRING (Props/C07B.lean): url.Parse and Query() of go1.23.5 are modelled on arbitrary byte strings "
+    "(Spec.goUrlParse: control bytes, fragment, scheme, opaque URLs, colon in the first segment, //authority with userinfo, host, port, IPv6 "
+    "literal and zone, path unescaping, Query() with ';', '+' and dropped pieces) and NewURLFromRaw is the composition newURLFromRaw. Proved, "
+    "unbounded, for EVERY raw string: no panic (C07B_total); a returned URL comes from a string net/url accepts, whose values map has unique "
+    "keys, and satisfies every consistency clause of C07 (C07B_parsed, C07B_consistent, C07B_sort_names); the order in which Query()'s map is "
+    "ranged over is immaterial (C07B_order_independent); on plain references - no control byte, '#', scheme-like first segment, authority or "
+    "';' - the full parser is the parser C08 is proved with (C07B_extends_parseRaw; the two differ outside: C07B_parseRaw_differs), everything "
+    "URL.String() writes is a plain reference (C07B_string_plainRef), hence C08's re-parse theorem holds from raw string to raw string with the "
+    "modelled JSON codec (C07B_parse_string, C07B_reparse); Query() is the list of kept decoded pieces grouped by key (C07B_query_spec) and "
+    "permuting differently named pieces of the raw query changes neither acceptance nor path nor String() (C07B_order, C07B_order_url, "
+    "C07B_raw_order). Correspondence (suite urlraw): the real url.Parse + Query() and the real NewURLFromRaw against the model on the SAME raw "
+    "string - the url suite's grammar plain and decorated, assembled URLs from pools of schemes, userinfo, hosts, IPv6 literals and zones, "
+    "ports, paths, query pieces, fragments with every valid and invalid escape, control and non-ASCII bytes, empty components, random byte "
+    "strings, strings of tens of kilobytes - nothing decoded by net/url is handed over.")
+_c["level_note"] += (" For the raw-string theorems net/url leaves the trusted base except for the validation by suite urlraw (go1.23.5). The filter "
+    "parameter's JSON decode is the modelled codec inside its validated domain (well-formed UTF-8, no whitespace, no surrogate escapes, integer "
+    "numerals within 2^53) and handed over by the harness outside it; the theorems hold for every decode.")
